@@ -37,7 +37,9 @@ var windowType = spec.Struct(
 	spec.FieldSpec{Go: "Note", JSON: "note", T: spec.Ptr(spec.T("string"))},
 )
 
-func init() { registerReplay("c10window", func(c windowCase) error { _, err := runC10Window(c); return err }) }
+func init() {
+	registerReplay("c10window", func(c windowCase) error { _, err := runC10Window(c); return err })
+}
 
 func runC10Window(c windowCase) (bool, error) {
 	enc := encCase{Type: windowType, Compression: c.Compression, BlockSize: c.BlockSize}
